@@ -245,6 +245,7 @@ func VerifC16Split() {
 		}
 	}
 	verifAssert(bytes.Equal(got, want), "C16.split: piece contents are not the original objects, byte-identical and in order")
+	verifReach("content-checked")
 	// known finding: the subset (and epoch) node appended to every piece is not counted
 	verifKnownFinding("C16-split-size-omits-subset-node", true)
 	verifAssert(csvOK, "C16.split: 'file size' in the CSV differs from the file written")
